@@ -248,6 +248,16 @@ def check_mlkr_point(ml, ds, lname, L):
   return None
 
 
+def as_given(init):
+  """the init array as a user may hand it over: for every other array in column-major memory order (np.asfortranarray, a transposed
+  view, data loaded from a .mat file are ndarrays too) -- the documented initialisation is its VALUE"""
+  if not isinstance(init, np.ndarray):
+    return init
+  if int(abs(float(init.flat[0])) * 1e6) % 2 == 0:
+    return np.asfortranarray(init)
+  return init.copy()
+
+
 def lmnn_recorder(ml):
   class RecordingLMNN(ml.LMNN):
     """the real LMNN; every call of the real _loss_grad is recorded (L, returned objective, the other arguments)"""
@@ -370,7 +380,7 @@ def check_lbfgs_fit(ml, learner, ds, iname, init, n_components, max_iter, rs, pr
   init0 = _initialize_components(nc, X, y, init.copy() if isinstance(init, np.ndarray) else init, False, rs,
                                  has_classes=(learner == 'NCA'))
   init0 = np.array(init0, dtype=float, copy=True)
-  est = getattr(ml, learner)(init=init.copy() if isinstance(init, np.ndarray) else init, n_components=n_components,
+  est = getattr(ml, learner)(init=as_given(init), n_components=n_components,
                              max_iter=max_iter, random_state=rs)
   try:
     with recorded_minimize(module) as log:
@@ -443,7 +453,7 @@ def check_lmnn_fit(ml, ds, iname, init, n_components, max_iter, learn_rate, rs):
   T, ambiguous = lmnn_targets(X, y, k)
   nc = ds['d'] if n_components is None else n_components
   init0 = np.array(_initialize_components(nc, X, y, init.copy() if isinstance(init, np.ndarray) else init, False, rs), dtype=float, copy=True)
-  est = lmnn_recorder(ml)(init=init.copy() if isinstance(init, np.ndarray) else init, n_components=n_components, max_iter=max_iter,
+  est = lmnn_recorder(ml)(init=as_given(init), n_components=n_components, max_iter=max_iter,
                           learn_rate=learn_rate, n_neighbors=k, regularization=reg, random_state=rs, verbose=True)
   trace = _Trace(est)
   raised = None
